@@ -5,13 +5,13 @@ from props import c09_eproc
 
 THEOREMS = ["Slock.C09." + t for t in (
     # ring buffer: all guarded operation sequences of any length (induction), + witnesses that the guard is needed
-    "reachable_inv C09_no_gap_partial C09_no_gap_fails C09_out_of_buf_partial C09_out_of_buf_fails C09_search C09_buffer_is_suffix "
+    "reachable_inv C09_no_gap C09_out_of_buf C09_stale_addpoll_repaired C09_search C09_buffer_is_suffix "
     # handshake model: invariant for all guarded event sequences of any length (induction), prefix + convergence theorems
     "C09_sync_inv C09_resync C09_converge "
     # SendProcess's 4 KB batch buffer keeps the record order (and the seeded exemption of large records breaks it)
     "C09_batch_order C09_batch_bound C09_batch_order_needs_flush "
-    # each guard is needed (decide on the executable model; each sequence fails SGuarded exactly at the guarded event)
-    "C09_resync_fails_early_cut C09_resync_fails_empty_buffer C09_resync_fails_stale_addpoll "
+    # regression examples of the two repairs (formerly counterexamples), and the guard that is still needed
+    "C09_early_cut_repaired C09_stale_start_repaired C09_resync_fails_empty_buffer "
     # per-step statements kept from the first round
     "C09_resume_partial C09_full_partial C09_resync_partial C09_push_keeps_stream C09_converge_partial").split()] + [
     # one step lemma per event kind + the induction
@@ -25,21 +25,14 @@ WITNESS_LINES = [
     "replq 128 256 cursor:0;add:0;cursor:1;add:1;push:1:0:0;push:2:1:0;pop:0;ack:0;pop:1;push:3:2:10;push:4:3:0;pop:0;ack:0;pop:0;"
     "push:5:4:0;push:6:5:0;push:7:6:0;rm:1;search:0:4;st;pop:0;pop:1",
 ]
-WITNESS_EXPECT = ["ok:3:2:0:0;ok:4:3:0:0;eof", "ok:5:4:0:4;oob"]
+WITNESS_EXPECT = ["oob;oob;oob", "ok:5:4:0:4;oob"]   # first line: since `fix: AddPoll re-validates the cursor` the overtaken cursor gets the error
 
 # Monitor signatures of divergences found on the UNCHANGED tree, reported but not (yet) triaged into
 # /verif/known_findings.json by the main session. Printed as PENDING-FINDING on every run; they do not fail the check.
 # Everything else the monitor reports does. Move an entry to known_findings.json (or fix /repo and the model) to retire it.
-_STALE = ("replication.go AddPoll walks `cursor.currentItem → nextItem` and increments pollCount even when that item has meanwhile been "
-          "recycled into the FREE list (handleInitSync positions the cursor with Head/Search, AddPoll runs only after the client's "
-          "\"started\" message): the recycled marks 0xffffffff wrap to 0, so a cursor at seq 0 (the first record pushed since start) "
-          "passes Pop's `seq` check against the recycled item (seq reset to 0) and is served stale items from the free list, or EOF for "
-          "ever, instead of \"out of buf\". Lean witnesses: Slock.C09.C09_no_gap_fails, Slock.C09.C09_out_of_buf_fails")
-_EARLY = ("replication.go ReplicationClient.InitSync stores the id H answered by the leader as its own currentAofId BEFORE any record has "
-          "arrived (`self.currentAofId = aofId` right before recvFiles(), after aof.Reset + FlushDB). If the connection is lost before the first "
-          "file record arrives, the reconnect reports H as \"last applied\", handleInitSync finds H in the ring buffer and resumes after it: the "
-          "follower holds NONE of the records 1…H and stays that way. Reproduced on real processes (follower restarted on an empty dir, its "
-          "first connection cut 120 bytes into the leader's answer); Lean witness: Slock.C09.C09_resync_fails_early_cut")
+# Repaired in /repo (no longer pending; if one of them shows up again it is a violation):
+#   C09:*:stale-addpoll                                      — fix: AddPoll re-validates the cursor
+#   C09:follower-missing-record:cut-before-first-file-record — fix: InitSync no longer stores the leader's answer as the follower's position
 _EXPIRED = ("aof.go LoadAofFile drops every LOCK record whose OWN deadline has passed before it calls the iterator — also when a later re-entrant "
             "re-lock extended the hold (depth) or when the value it set outlives it. sendFiles (full transfer), the follower's aof.Load() on a "
             "resume and a plain recovery all go through it, so a follower synchronised from files holds depth-1 / the older value while the "
@@ -56,13 +49,8 @@ _STALEVAL = ("UNTRIAGED, rare and timing dependent (3 of ~60 runs of scenario `f
 PENDING_FINDINGS = {
     "C09:follower-diverged:stale-value": _STALEVAL,
     "C09:follower-diverged:killed-in-file-phase": _STALEVAL,
-    "C09:follower-missing-record:cut-before-first-file-record": _EARLY,
     "C09:follower-diverged:expired-record:equals-leader-recover": _EXPIRED,
     "C09:follower-diverged:expired-record": _EXPIRED + " [in this run the shadow recovery, which is time dependent, did not match exactly]",
-    "C09:gap-or-dup:stale-addpoll": _STALE,
-    "C09:skipped-silently:stale-addpoll": _STALE,
-    "C09:overtaken-no-error:stale-addpoll": _STALE,
-    "C09:eof-with-pending:stale-addpoll": _STALE,
 }
 
 FINISH = {"level": "proof", "assumptions": [
@@ -71,11 +59,11 @@ FINISH = {"level": "proof", "assumptions": [
     "reading of handleInitSync / sendFiles / SendProcess / sendSyncCommand / InitSync / recvFiles, tied at process level: the connect "
     "DECISION (full / resume after R / not-found) is compared with the real leader's on every observed handshake, and the END STATE "
     "(follower holds = leader holds at quiescence) is checked on real processes after restarts and cuts",
-    "handshake model theorems (C09_sync_inv / C09_resync / C09_converge) hold for event sequences of any length under the decidable guards "
-    "EvOk: AddGuard at `start` (cursor's item not recycled between handshake and \"started\"), CutGuard at `cut` (a live follower reports the id "
-    "of the last record it applied — false only between \"started\" of a transfer from scratch and its first record), FreshGuard at stream "
-    "`deliver` (a cursor without position pops while record 1 is buffered), < 2^64-1 records, < 2^32-1 starts; each guard has a `decide` "
-    "counterexample showing it is needed; that RemovePoll only undoes an AddPoll is proved (pollCount = registered channels)",
+    "handshake model theorems (C09_sync_inv / C09_resync / C09_converge) hold for event sequences of any length under the remaining decidable "
+    "guards EvOk: FreshGuard at stream `deliver` (a cursor without position pops while record 1 is buffered; counterexample "
+    "C09_resync_fails_empty_buffer, not repaired), < 2^64-1 records, < 2^32-1 starts; the former AddGuard (`start`) and CutGuard (`cut`) are gone "
+    "with the two repairs in /repo; that RemovePoll only undoes an AddPoll is proved (pollCount = registered channels); at the queue level it "
+    "remains the one side condition of C09_no_gap / C09_out_of_buf",
     "assumed away in the handshake model: LoadAofFile's per-record expiry filter (the file phase transfers every record with id < H, i.e. no "
     "record's own deadline passes during the run) — its effect is the process-level finding `expired-record`",
     "SendProcess's batching (4096-byte buffer, direct write of larger records, flush rules) is modelled separately (Batch / sendRec) and proved "
